@@ -51,15 +51,41 @@ def _worker(args):
     return jsonable(out)
 
 
+GRACE_AFTER_VIOLATION_S = int(os.environ.get("VERIF_GRACE_S", "180"))
+
+
 def run_configs(fn_mod, fn_name, cfgs, procs=None, timeout=None):
-    """run worker(cfg) for every cfg in a process pool (fork); returns list of result dicts"""
+    """run worker(cfg) for every cfg in a process pool (fork); returns list of result dicts.
+    Once a configuration has returned a violation, the remaining configurations get GRACE_AFTER_VIOLATION_S more seconds;
+    those still running are then cancelled and reported as inconclusive (the run exits 1 on the violation anyway) - a
+    changed tree that also makes some other query intractable must not hide the counterexample already found."""
     procs = procs or min(16, max(1, len(cfgs)))
     jobs = [(fn_mod, fn_name, c) for c in cfgs]
     if procs == 1 or len(cfgs) <= 1 or os.environ.get("VERIF_SERIAL"):
         return [_worker(j) for j in jobs]
     ctx = multiprocessing.get_context("fork")
-    with ctx.Pool(procs, maxtasksperchild=20) as pool:
-        return pool.map(_worker, jobs, chunksize=1)
+    pool = ctx.Pool(procs, maxtasksperchild=20)
+    try:
+        pending = {i: pool.apply_async(_worker, (j,)) for i, j in enumerate(jobs)}
+        results = {}
+        first_violation = None
+        while pending:
+            for i in [i for i, r in pending.items() if r.ready()]:
+                results[i] = pending.pop(i).get()
+                if results[i].get("violations") and first_violation is None:
+                    first_violation = time.time()
+            if first_violation is not None and pending and time.time() - first_violation > GRACE_AFTER_VIOLATION_S:
+                for i in pending:
+                    results[i] = {"status": "inconclusive", "cfg": jsonable(cfgs[i]), "cancelled": True,
+                                  "error": "cancelled %d s after another configuration reported a violation" % GRACE_AFTER_VIOLATION_S}
+                pending = {}
+                pool.terminate()
+                break
+            time.sleep(0.05)
+        return [results[i] for i in range(len(jobs))]
+    finally:
+        pool.terminate()
+        pool.join()
 
 
 class Report:
